@@ -19,6 +19,8 @@ try:
     rc0, out0 = demo()
     res["demo_on_head"] = {"rc": rc0, "tail": out0}
     a = subprocess.run(["git", "-C", wt, "apply", os.path.join(src, "patch.diff")], capture_output=True, text=True)
+    if a.returncode != 0:
+        a = subprocess.run(["git", "-C", wt, "apply", "--3way", os.path.join(src, "patch.diff")], capture_output=True, text=True)
     res["patch_applies"] = a.returncode == 0
     if a.returncode != 0:
         res["apply_err"] = a.stderr[-500:]
